@@ -138,8 +138,9 @@ pub fn layout_programs() -> Vec<Prog> {
     out.push(assemble(vec![Const::Str(long), Const::Str("x".repeat(70000))], vec![], None));
     // long strings whose multi-byte characters sit at every alignment (a block-wise decoder must not split them)
     for prefix in ["", "a", "ab", "abc"] {
-        out.push(assemble(vec![Const::Str(format!("{}{}", prefix, "é".repeat(3000))), Const::Str(format!("{}{}", prefix, "€".repeat(2500))),
-                               Const::Str(format!("{}{}", prefix, "𝒳".repeat(2100))), Const::Str(format!("{}{}", prefix, "aé€𝒳".repeat(900)))], vec![P_SLOT], None));
+        // each string is longer than 16 KiB, so every power-of-two block size up to 8 KiB has boundaries inside it
+        out.push(assemble(vec![Const::Str(format!("{}{}", prefix, "é".repeat(9000))), Const::Str(format!("{}{}", prefix, "€".repeat(6000))),
+                               Const::Str(format!("{}{}", prefix, "𝒳".repeat(4500))), Const::Str(format!("{}{}", prefix, "aé€𝒳".repeat(1900)))], vec![P_SLOT], None));
     }
     out
 }
